@@ -570,7 +570,15 @@ class Interp:
                 self.cell_access(st, loc, rv["mut"], fn, getattr(self, "_cur_line", None))
             return Ref(loc)
         if k == "cast":
-            return self.eval_operand(st, fid, rv["op"])
+            v = self.eval_operand(st, fid, rv["op"])
+            # an address narrowed to fewer bits than a pointer has (`addr as u32`) no longer identifies or orders locks
+            t = rv.get("ty") or {}
+            if t.get("k") == "prim" and t.get("name") in ("u8", "u16", "u32", "i8", "i16", "i32") and getattr(self, "addrs", None) \
+                    and any(x in str(rv.get("kind", "")) for x in ("IntToInt", "PointerExpose")):
+                import listmodel
+                if listmodel.addr_of(self, v) is not None:
+                    return self.fresh_op(st, "trunc", t, tag=("truncated-address", v))
+            return v
         if k == "binop":
             a = self.eval_operand(st, fid, rv["a"])
             b = self.eval_operand(st, fid, rv["b"])
@@ -622,7 +630,7 @@ class Interp:
                 return Const(v[3])
             if v[0] == "op":
                 f = st.facts.get(v[1])
-                if isinstance(f, tuple) and f[0] == "variant":
+                if isinstance(f, tuple) and f[0] == "variant" and isinstance(f[1], int):
                     return Const(f[1])
                 return ("op", v[1] + "#d", ("discr", v))
             return self.fresh_op(st, "d")
@@ -961,6 +969,17 @@ class Interp:
             tag = v[2]
             if tag and tag[0] == "discr":
                 inner = tag[1]
+                known = st.facts.get(inner[1])
+                if isinstance(known, tuple) and known and known[0] == "variant":
+                    if known[1] == "other":
+                        # an earlier switch established "none of the variants it listed": if this switch lists the same or
+                        # fewer, its otherwise arm is the only way on
+                        return [(t["otherwise"], st)] if not self.block_is_unreachable(fn, t["otherwise"]) else \
+                            [(b, st) for a, b in arms]
+                    for a, b in arms:
+                        if a == known[1]:
+                            return [(b, st)]
+                    return [(t["otherwise"], st)]
                 out = []
                 seen = set()
                 for a, b in arms:
@@ -1108,6 +1127,21 @@ class Interp:
                         res.append(("unwind" if "unwind" in (kind, k2) else "ok", s2))
                 return res
             # foreign ADT with unknown content
+            g = st.guards.get(oid)
+            if g is not None:
+                # the (normalised) result of a guard()/read_guard() call, e.g. `Result<PoisonRef<G>, PoisonError<..>>`, dropped
+                # as a whole: the guard inside it goes with it
+                recv, mode, status = g
+                ev = self.emit(st, {"k": "GDROP", "val": oid, "recv": recv, "mode": mode}, fn, line)
+                if status != "live":
+                    self.problem(st, "GUARD_DROPPED_TWICE", ev)
+                elif recv is not None:
+                    cur = st.locks.get(recv, "U")
+                    if cur != mode:
+                        self.problem(st, "REL_NOT_HELD", ev, have=cur)
+                    st.locks[recv] = "U"
+                st.guards[oid] = (recv, mode, "dropped")
+                return [("ok", st)]
             if any(x["k"] in ("param", "alias") or (x["k"] == "adt" and x.get("local")) for x in _walk(t)):
                 self.emit(st, {"k": "DROPQ", "val": oid, "ty": t["s"]}, fn, line)
             return [("ok", st)]
@@ -1473,7 +1507,8 @@ class Interp:
         if lfn is not None:
             return self.inline(st, lfn, args, depth, self.callee_subst(lfn, ce, tid))
         # unknown foreign function
-        ev = self.emit(st, {"k": "CALL", "def": tdef, "base": d, "args": args}, fn, line)
+        ev = self.emit(st, {"k": "CALL", "def": tdef, "base": d, "args": args,
+                            "targs": [a for a in (ce.get("args") or []) if isinstance(a, dict) and a.get("k") not in ("region", "const")]}, fn, line)
         rv = self.fresh_op(st, "r", dest_ty, tag=("call", tdef, ev["i"]))
         ev["result"] = rv[1]
         nounwind = (d in NOUNWIND) or (tdef in NOUNWIND) or (d in self.nounwind_extra) or \
